@@ -19,6 +19,12 @@ from celpy.celparser import CELParseError
 EPOCH = datetime.datetime(1970, 1, 1, tzinfo=datetime.timezone.utc)
 
 
+CEL_TYPE_NAMES = {
+    "IntType": "int", "UintType": "uint", "DoubleType": "double", "BoolType": "bool", "StringType": "string", "BytesType": "bytes",
+    "ListType": "list", "MapType": "map", "NoneType": "null_type", "TimestampType": "timestamp", "DurationType": "duration", "TypeType": "type",
+}
+
+
 def td_micros(td: datetime.timedelta) -> int:
     return (td.days * 86400 + td.seconds) * 1_000_000 + td.microseconds
 
@@ -91,7 +97,7 @@ def canon(v: Any) -> Any:
     if k == "duration":
         return ("duration", td_micros(v))
     if k == "type":
-        return ("type", v.__name__)
+        return ("type", CEL_TYPE_NAMES.get(v.__name__, "py:" + v.__name__))
     return ("other", type(v).__name__, repr(v)[:200])
 
 
